@@ -111,6 +111,9 @@ class ChefBuiltinT(tools.ToolCase):
         self.kept = []
         if src.flag("kept"):
             idx = src.subset("kept.set", min(len(self.m.fields), 8), min_size=1)
+            if src.flag("kept.permuted"):
+                order = src.perm("kept.order", len(idx))
+                idx = [idx[k] for k in order]
             self.kept = [self.m.fields[i] for i in idx]
             if src.flag("kept.temp"):
                 self.kept.append("temp") if "temp" not in self.kept else None
